@@ -172,6 +172,63 @@ def make_ticks(nser, nticks, fail=False, reach=False, add_in_sink=False, slow=Fa
     return fn
 
 
+def make_concrete(kind, nticks=8):
+    """Concrete timelines (real datetimes: IEEE arithmetic and real tzinfo semantics of the code, which the integer encoding abstracts).
+    'far': align_to centuries away from now (year 1 / 2300), now with a microsecond component: the first window end must be exactly on the grid.
+    'dst': align_to in a zone with a variable UTC offset (Europe/Berlin), creation shortly before a DST change, 15 min period, nticks ticks:
+    every tick must be exactly one period after the previous one as an INSTANT."""
+    from datetime import datetime
+
+    def fn(ex):
+        utc = timezone.utc
+        if kind == "far":
+            al = [datetime(1, 1, 1, tzinfo=utc), datetime(2300, 1, 1, tzinfo=utc), datetime(1970, 1, 1, tzinfo=utc)][ex.choice("align_to", 3)]
+            per = [timedelta(seconds=7), timedelta(seconds=1), timedelta(milliseconds=300), timedelta(microseconds=1_500_001)][ex.choice("period", 4)]
+            now = datetime(2024, 5, 17, 13, 7, 11, tzinfo=utc) + ex.choice("now_step", 12) * timedelta(microseconds=83_333_337)
+            nt = 0
+        else:
+            try:
+                from zoneinfo import ZoneInfo
+                zone = ZoneInfo("Europe/Berlin")
+            except Exception:  # noqa: BLE001  (no tz database: the instance degenerates to a fixed offset)
+                zone = timezone(timedelta(hours=1))
+            al = datetime(2023, 1, 1, 0, 7, tzinfo=zone)
+            per = timedelta(minutes=15)
+            base = [datetime(2023, 10, 29, 0, 20, tzinfo=utc), datetime(2023, 3, 26, 0, 20, tzinfo=utc), datetime(2023, 7, 1, 12, 0, tzinfo=utc)][ex.choice("season", 3)]
+            now = base + ex.choice("now_step", 4) * timedelta(minutes=4, seconds=1)
+            nt = nticks
+        Clock.now = now
+        StubTimer.instances.clear()
+        rs.Timer = StubTimer
+        got = []
+
+        async def src():
+            await asyncio.Future()
+            yield None  # pragma: no cover
+
+        async def sink(s_):
+            got.append(s_.timestamp)
+
+        async def scenario():
+            r = rs.Resampler(rs.ResamplerConfig(resampling_period=per, align_to=al))
+            w0 = r._window_end
+            r.add_timeseries("s", src(), sink)
+            for _ in range(nt):
+                r._timer.drifts = [timedelta(0)]
+                await r.resample()
+            await r.stop()
+            return w0
+        w0 = fx.run_loop(scenario())
+        w0u, alu = w0.astimezone(utc), al.astimezone(utc)
+        ex.observe("first_window_end", str(w0u))
+        ex.check((w0u - alu) % per == timedelta(0), f"first window end {w0u} is not on the grid align_to + k * period")
+        ex.check(now <= w0u <= now + 2 * per, "first window end is before creation or more than two periods after it")
+        ex.check(len(got) == nt, f"{len(got)} samples for {nt} ticks")
+        for j, ts in enumerate(got):
+            ex.check(ts.astimezone(utc) == w0u + j * per, f"tick {j} is stamped {ts.astimezone(utc)}, expected {w0u + j * per} (first window end + {j} periods)")
+    return fn
+
+
 def instances(tier):
     I = Instance
     out = [
@@ -179,6 +236,9 @@ def instances(tier):
         I("window-end-aligned", "make_window_end", (True,), "symbolic now / align_to / period", budget_s=200, timeout_ms=60000, validate_every=1, max_validate=20),
         I("window-end-tz", "make_window_end", (True, False, True), "align_to is an aware datetime in a non-UTC zone (6 offsets x 3 wall-clock instants), symbolic now / period",
           budget_s=150, timeout_ms=30000, validate_every=1, max_validate=20),
+        I("concrete-far-align", "make_concrete", ("far",), "concrete timeline: align_to in year 1 / 2300 / 1970, 4 periods, 12 creation instants with microsecond components", budget_s=60, validate_every=0),
+        I("concrete-dst", "make_concrete", ("dst", 8), "concrete timeline: align_to in Europe/Berlin, creation 40 min before a DST change (both directions) or in summer, 15 min period, 8 ticks",
+          budget_s=60, validate_every=0),
         I("window-end-unaligned", "make_window_end", (False,), "align_to=None", budget_s=100, validate_every=1),
         I("ticks-3x4", "make_ticks", (3, 4), "3 series (one added after the first tick), 4 ticks, symbolic drifts", budget_s=200, validate_every=5),
         I("ticks-3x4-sinkfail", "make_ticks", (3, 4, True), "a sink raises at a symbolic tick, series removed, loop restarted", budget_s=200, validate_every=5),
